@@ -5,6 +5,7 @@ open List
 
 /-- what `_getAnchorLists` guarantees on a well-formed input -/
 structure ALwf (i : Input) (al : AList) : Prop where
+  pre : i.pre = []
   keys : (al.map (·.1)).Nodup
   names : ∀ e ∈ al, (e.2.map (·.name)).Nodup
   shape : ∀ e ∈ al, ∀ a ∈ e.2, NAShape a
@@ -12,23 +13,32 @@ structure ALwf (i : Input) (al : AList) : Prop where
   src : ∀ e ∈ al, ∃ sg, findGlyph i e.1 = some sg ∧ included i e.1 = true ∧
     ∀ a ∈ e.2, ∃ s ∈ sg.anchors, s.name = a.name ∧ a.x = quantize i.quant s.x ∧ a.y = quantize i.quant s.y
 
-theorem wf_iff (i : Input) : wf i = true ↔
+theorem wf_pre {i : Input} (h : wf i = true) : i.pre = [] := by
+  simp only [wf, Bool.and_eq_true] at h
+  simpa using h.1.1.1
+
+theorem wf_iff' (i : Input) : wf i = true ↔ i.pre = [] ∧
     (∀ g ∈ i.glyphs, ∀ a ∈ g.anchors, a.name.toList.head? = some '_' → sanitize a.name = a.name) ∧
     (i.glyphs.map (·.name)).Nodup ∧
     (∀ g ∈ i.glyphs, g.name ∈ i.abvm ∨ g.name ∈ i.notAbvm) := by
   simp only [wf, Bool.and_eq_true, all_eq_true, Bool.or_eq_true, bne_iff_ne, ne_eq, beq_iff_eq, decide_eq_true_eq,
-    contains_iff_mem, and_assoc]
+    contains_iff_mem, and_assoc, isEmpty_iff]
   constructor
-  · rintro ⟨h1, h2, h3⟩
-    refine ⟨fun g hg a ha hh => ?_, h2, h3⟩
+  · rintro ⟨h0, h1, h2, h3⟩
+    refine ⟨h0, fun g hg a ha hh => ?_, h2, h3⟩
     rcases h1 g hg a ha with h | h
     · exact absurd hh h
     · exact h
-  · rintro ⟨h1, h2, h3⟩
-    refine ⟨fun g hg a ha => ?_, h2, h3⟩
+  · rintro ⟨h0, h1, h2, h3⟩
+    refine ⟨h0, fun g hg a ha => ?_, h2, h3⟩
     by_cases hh : a.name.toList.head? = some '_'
     · exact Or.inr (h1 g hg a ha hh)
     · exact Or.inl hh
+
+theorem wf_iff (i : Input) : wf i = true →
+    (∀ g ∈ i.glyphs, ∀ a ∈ g.anchors, a.name.toList.head? = some '_' → sanitize a.name = a.name) ∧
+    (i.glyphs.map (·.name)).Nodup ∧
+    (∀ g ∈ i.glyphs, g.name ∈ i.abvm ∨ g.name ∈ i.notAbvm) := fun h => ((wf_iff' i).mp h).2
 
 theorem findGlyph_of_mem {i : Input} (hn : (i.glyphs.map (·.name)).Nodup) {sg : SrcGlyph} (h : sg ∈ i.glyphs) :
     findGlyph i sg.name = some sg := by
@@ -40,9 +50,9 @@ theorem findGlyph_some {i : Input} {g : String} {sg : SrcGlyph} (h : findGlyph i
   ⟨mem_of_find?_eq_some h, by simpa using find?_some h⟩
 
 theorem alwf_of_ok {i : Input} {al : AList} (hwf : wf i = true) (h : anchorLists i = .ok al) : ALwf i al := by
-  obtain ⟨hsan, hnd, _⟩ := (wf_iff i).mp hwf
+  obtain ⟨hsan, hnd, _⟩ := wf_iff i hwf
   obtain ⟨h1, _, h3⟩ := anchorLists_ok h
-  refine ⟨h3.nodup hnd, ?_, ?_, ?_, ?_⟩
+  refine ⟨wf_pre hwf, h3.nodup hnd, ?_, ?_, ?_, ?_⟩
   · intro e he
     obtain ⟨_, sg, _, _, _, hg⟩ := h1 e he
     exact (glyphAnchors_ok hg).2.2.1
@@ -191,7 +201,7 @@ theorem makeClasses_meOf {i : Input} {al : AList} (w : ALwf i al) :
     obtain ⟨_, _, _, _, _, _, _, hs⟩ := hname n hn
     exact sanitize_MC hs
   have h := makeClasses_closed (meOf i al) (groupNames (meOf i al)) keyOfMarkName ?_ ?_ ?_
-  · unfold makeClasses
+  · unfold makeClasses makeClassesFrom
     rw [h]
     congr 1
     · exact map_congr_left (fun n hn => by rw [hsan n hn])
